@@ -840,6 +840,45 @@ class Case:
 # --------------------------------------------------------------------------------------------------
 # one execution
 # --------------------------------------------------------------------------------------------------
+_CASE_TIME_LIMIT = float(os.environ.get("C20_DYN_TIME_LIMIT", "60"))
+
+
+class CaseTimeout(Exception):
+    """The public call exceeded the per-run time limit (recorded like any other exception)."""
+
+
+class _time_limit:
+    """SIGALRM based guard; only active in the main thread of a POSIX process."""
+
+    def __init__(self, seconds):
+        self.seconds = seconds
+        self.active = False
+
+    def __enter__(self):
+        try:
+            import signal
+            import threading
+
+            if self.seconds > 0 and hasattr(signal, "setitimer") and threading.current_thread() is threading.main_thread():
+
+                def handler(signum, frame):
+                    raise CaseTimeout(f"run exceeded {self.seconds:g} s")
+
+                self._signal = signal
+                self._old = signal.signal(signal.SIGALRM, handler)
+                signal.setitimer(signal.ITIMER_REAL, self.seconds)
+                self.active = True
+        except Exception:
+            self.active = False
+        return self
+
+    def __exit__(self, *exc):
+        if self.active:
+            self._signal.setitimer(self._signal.ITIMER_REAL, 0)
+            self._signal.signal(self._signal.SIGALRM, self._old)
+        return False
+
+
 class _Outcome:
     __slots__ = (
         "fp",
@@ -940,11 +979,12 @@ def _execute(
         values = []
         np.random.seed(_NP_SEED)
         try:
-            res = eval(c_call, ns)
-            ns["result"] = res
-            values.append(res)
-            for c in c_follow:
-                values.append(eval(c, ns))
+            with _time_limit(_CASE_TIME_LIMIT):
+                res = eval(c_call, ns)
+                ns["result"] = res
+                values.append(res)
+                for c in c_follow:
+                    values.append(eval(c, ns))
         except Exception as e:  # noqa: BLE001 - the library may raise anything
             out.exc = e
             out.exc_text = _exc_text(e)
@@ -1012,9 +1052,12 @@ def _obs(case, mode, kind, what, site, detail, before=None, after=None, **extra)
 def _dedupe(obs):
     seen = {}
     for o in obs:
-        key = (o["kind"], o["what"], o["site"], o["mode"], o.get("variant"))
+        key = (o["kind"], o["what"], o["site"], o["mode"])
         if key in seen:
-            seen[key]["count"] = seen[key].get("count", 1) + o.get("count", 1)
+            first = seen[key]
+            first["count"] = first.get("count", 1) + o.get("count", 1)
+            if o.get("variant") and o.get("variant") not in first.setdefault("variants", [first.get("variant")]):
+                first["variants"].append(o.get("variant"))
         else:
             seen[key] = o
     return list(seen.values())
@@ -1184,10 +1227,12 @@ def _run_same(case, t0):
     fp0 = None
     exc0 = None
     ran = 0
+    skipped_pairs = []
     for target, expr in case.alias_pairs:
         variant = f"{target}<-{expr}"
         a = _execute(case, alias=(target, expr, "same"))
         if a.skipped:
+            skipped_pairs.append(a.skipped)
             continue
         r = _execute(case, alias=(target, expr, "copy"))
         ran += 1
@@ -1221,8 +1266,8 @@ def _run_same(case, t0):
             _mutation_observations(case, "same", a, variant=variant, site_kw=dict(alias=(target, expr, "same")))
         )
     if ran == 0:
-        return _result(case, "same", [], None, None, skipped=True, elapsed=time.time() - t0)
-    return _result(case, "same", obs, fp0, exc0, elapsed=time.time() - t0)
+        return _result(case, "same", [], None, None, skipped=True, elapsed=time.time() - t0, skipped_pairs=skipped_pairs)
+    return _result(case, "same", obs, fp0, exc0, elapsed=time.time() - t0, skipped_pairs=skipped_pairs, pairs_run=ran)
 
 
 def _run_cb(case, t0, mode):
@@ -2322,29 +2367,39 @@ _T(
 
 
 # ---- poisson -------------------------------------------------------------------------------------
+# Sizes / options are chosen so that every solve converges in well under a second: with an angular
+# dependent density the default BVP (origin included, tol 1e-6) needs minutes on such tiny grids.
 _PP = dict(N=10, DEG=3)
 _VPP = dict(N=[8, 12, 16], DEG=[3, 5])
+_PGRID = "btf = BeckeRTransform(1e-4, 1.5)\nrg = btf.transform_1d_grid(GaussLegendre(@N@))\ntf = InverseRTransform(btf)\n"
 _PAG = (
     _RS
-    + "btf = BeckeRTransform(1e-4, 1.5)\nrg = btf.transform_1d_grid(GaussLegendre(@N@))\ntf = InverseRTransform(btf)\n"
+    + _PGRID
     + "ag = AtomGrid(rg, degrees=[@DEG@])\nfv = np.exp(-np.linalg.norm(ag.points, axis=1) ** 2) * (1 + 0.2 * ag.points[:, 2])\n"
+    + "tp = rs.uniform(-1.2, 1.2, (4, 3))\n"
+)
+_PAGS = (
+    _RS
+    + _PGRID
+    + "ag = AtomGrid(rg, degrees=[@DEG@])\nfv = np.exp(-np.linalg.norm(ag.points, axis=1) ** 2)\n"
     + "tp = rs.uniform(-1.2, 1.2, (4, 3))\n"
 )
 _PMG = (
     _RS
-    + "btf = BeckeRTransform(1e-4, 1.5)\nrg = btf.transform_1d_grid(GaussLegendre(@N@))\ntf = InverseRTransform(btf)\n"
+    + _PGRID
     + "atnums = np.array([1, 1])\natcoords = np.array([[0.0, 0.0, -0.7], [0.0, 0.0, 0.7]])\n"
     + "mg = MolGrid.from_size(atnums, atcoords, 6, rgrid=rg, store=True, rotate=0)\n"
     + "fv = np.exp(-np.linalg.norm(mg.points - atcoords[0], axis=1) ** 2) + np.exp(-np.linalg.norm(mg.points - atcoords[1], axis=1) ** 2)\n"
     + "tp = rs.uniform(-1.2, 1.2, (4, 3))\n"
 )
 _PBV = "poisson._interpolate_molgrid_helper.sum_of_interpolation_functions"
-_T("poisson.solve_poisson_bvp", "atomgrid", _PAG, "solve_poisson_bvp(ag, fv, tf, remove_large_pts=10.0)", ["ag", "fv", "tf", "tp"], _PP, _VPP, follow=[(_PBV, "result(tp)")], alias=[("fv", "ag.weights")])
+_FAST = "include_origin=False, remove_large_pts=10.0"
+_T("poisson.solve_poisson_bvp", "atomgrid", _PAG, f"solve_poisson_bvp(ag, fv, tf, {_FAST})", ["ag", "fv", "tf", "tp"], _PP, _VPP, follow=[(_PBV, "result(tp)")], alias=[("fv", "ag.weights")])
 _T(
     "poisson.solve_poisson_bvp",
     "atomgrid_ode_params",
     _PAG + "ode_params = {'tol': 1e-4}\n",
-    "solve_poisson_bvp(ag, fv, tf, remove_large_pts=10.0, ode_params=ode_params)",
+    f"solve_poisson_bvp(ag, fv, tf, {_FAST}, ode_params=ode_params)",
     ["ag", "fv", "tf", "ode_params", "tp"],
     _PP,
     _VPP,
@@ -2360,18 +2415,30 @@ _T(
     _VPP,
     follow=[(_PBV, "result(tp)")],
 )
-_T("poisson.solve_poisson_bvp", "atomgrid_defaults", _PAG, "solve_poisson_bvp(ag, fv, tf)", ["ag", "fv", "tf", "tp"], _PP, _VPP, follow=[(_PBV, "result(tp)")])
-_T("poisson.solve_poisson_bvp", "molgrid", _PMG, "solve_poisson_bvp(mg, fv, tf, remove_large_pts=10.0)", ["mg", "fv", "tf", "tp"], _PP, _VPP, follow=[(_PBV, "result(tp)")], alias=[("fv", "mg.weights")])
+_T("poisson.solve_poisson_bvp", "atomgrid_defaults", _PAGS, "solve_poisson_bvp(ag, fv, tf)", ["ag", "fv", "tf", "tp"], _PP, _VPP, follow=[(_PBV, "result(tp)")], alias=[("fv", "ag.weights")])
+_T(
+    "poisson.solve_poisson_bvp",
+    "atomgrid_origin_ode_params",
+    _PAGS + "ode_params = {'max_nodes': 4000}\n",
+    "solve_poisson_bvp(ag, fv, tf, None, True, 10.0, ode_params)",
+    ["ag", "fv", "tf", "ode_params", "tp"],
+    _PP,
+    _VPP,
+    follow=[(_PBV, "result(tp)")],
+)
+_T("poisson.solve_poisson_bvp", "molgrid", _PMG, f"solve_poisson_bvp(mg, fv, tf, {_FAST})", ["mg", "fv", "tf", "tp"], _PP, _VPP, follow=[(_PBV, "result(tp)")], alias=[("fv", "mg.weights")])
 _T(
     "poisson.solve_poisson_bvp",
     "molgrid_ode_params",
     _PMG + "ode_params = {'max_nodes': 30000}\n",
-    "solve_poisson_bvp(mg, fv, tf, remove_large_pts=10.0, ode_params=ode_params)",
+    f"solve_poisson_bvp(mg, fv, tf, {_FAST}, ode_params=ode_params)",
     ["mg", "fv", "tf", "ode_params", "tp"],
     _PP,
     _VPP,
     follow=[(_PBV, "result(tp)")],
 )
+_T("poisson.solve_poisson_bvp", "molgrid_not_stored", _PMG + "mg = MolGrid.from_size(atnums, atcoords, 6, rgrid=rg, store=False, rotate=0)\n", f"solve_poisson_bvp(mg, fv, tf, {_FAST})", ["mg", "fv", "tf"], _PP, _VPP)
+_RK = "'method': 'RK45', 'rtol': 1e-5, 'atol': 1e-5"
 _T("poisson.solve_poisson_ivp", "atomgrid", _PAG + "interval = (50.0, 1e-2)\n", "solve_poisson_ivp(ag, fv, tf, r_interval=interval)", ["ag", "fv", "tf", "interval", "tp"], _PP, _VPP, follow=[(_PBV, "result(tp)")], alias=[("fv", "ag.weights")])
 _T(
     "poisson.solve_poisson_ivp",
@@ -2386,14 +2453,15 @@ _T(
 _T(
     "poisson.solve_poisson_ivp",
     "molgrid_ode_params",
-    _PMG + "ode_params = {'rtol': 1e-5, 'atol': 1e-5, 'method': 'RK45'}\n",
+    _PMG + "ode_params = {" + _RK + "}\n",
     "solve_poisson_ivp(mg, fv, tf, r_interval=(50.0, 1e-2), ode_params=ode_params)",
     ["mg", "fv", "tf", "ode_params", "tp"],
     _PP,
     _VPP,
     follow=[(_PBV, "result(tp)")],
+    alias=[("fv", "mg.weights")],
 )
-_T("poisson.solve_poisson_ivp", "molgrid", _PMG, "solve_poisson_ivp(mg, fv, tf, r_interval=(50.0, 1e-2))", ["mg", "fv", "tf", "tp"], _PP, _VPP, follow=[(_PBV, "result(tp)")])
+_T("poisson.solve_poisson_ivp", "bad_interval", _PAG + "interval = (1e-2, 50.0)\node_params = {'method': 'RK45'}\n", "solve_poisson_ivp(ag, fv, tf, interval, ode_params)", ["ag", "fv", "tf", "interval", "ode_params"], _PP, _VPP)
 _LAP = "poisson.interpolate_laplacian.sum_of_interpolation_funcs"
 _T("poisson.interpolate_laplacian", "atomgrid", _PAG, "interpolate_laplacian(ag, fv)", ["ag", "fv", "tp"], _PP, _VPP, follow=[(_LAP, "result(tp)"), (_LAP, "result(tp, 0.5)")], alias=[("fv", "ag.weights")])
 _T(
@@ -2412,12 +2480,12 @@ _T(
 # ---- robust_poisson ------------------------------------------------------------------------------
 _ROB = "robust_poisson.solve_poisson_robust.total_potential"
 _PRA = _PAG + "atnums = np.array([1])\natcoords = np.array([[0.0, 0.0, 0.0]])\n"
-_T("robust_poisson.solve_poisson_robust", "atomgrid", _PRA, "solve_poisson_robust(ag, fv, tf, atnums, atcoords, remove_large_pts=10.0)", ["ag", "fv", "tf", "atnums", "atcoords", "tp"], _PP, _VPP, follow=[(_ROB, "result(tp)")], alias=[("fv", "ag.weights")])
+_T("robust_poisson.solve_poisson_robust", "atomgrid", _PRA, f"solve_poisson_robust(ag, fv, tf, atnums, atcoords, {_FAST})", ["ag", "fv", "tf", "atnums", "atcoords", "tp"], _PP, _VPP, follow=[(_ROB, "result(tp)")], alias=[("fv", "ag.weights"), ("atcoords", "tp[:1]")])
 _T(
     "robust_poisson.solve_poisson_robust",
     "molgrid",
     _PMG,
-    "solve_poisson_robust(mg, fv, tf, atnums, atcoords, remove_large_pts=10.0)",
+    f"solve_poisson_robust(mg, fv, tf, atnums, atcoords, {_FAST})",
     ["mg", "fv", "tf", "atnums", "atcoords", "tp"],
     _PP,
     _VPP,
@@ -2428,7 +2496,7 @@ _T(
     "robust_poisson.solve_poisson_robust",
     "molgrid_split2",
     _PMG,
-    "solve_poisson_robust(mg, fv, tf, atnums, atcoords, split2=True, remove_large_pts=10.0)",
+    f"solve_poisson_robust(mg, fv, tf, atnums, atcoords, split2=True, {_FAST})",
     ["mg", "fv", "tf", "atnums", "atcoords", "tp"],
     _PP,
     _VPP,
@@ -2439,7 +2507,7 @@ _T(
     "robust_poisson.solve_poisson_robust",
     "split2_alphas_ode_params",
     _PMG + "alphas = np.geomspace(0.1, 50.0, 6)\node_params = {'tol': 1e-4}\n",
-    "solve_poisson_robust(mg, fv, tf, atnums, atcoords, split2=True, alphas_basis=alphas, remove_large_pts=10.0, include_origin=True, ode_params=ode_params)",
+    f"solve_poisson_robust(mg, fv, tf, atnums, atcoords, split2=True, alphas_basis=alphas, {_FAST}, ode_params=ode_params)",
     ["mg", "fv", "tf", "atnums", "atcoords", "alphas", "ode_params", "tp"],
     _PP,
     _VPP,
@@ -2449,7 +2517,7 @@ _T(
     "robust_poisson.solve_poisson_robust",
     "split2_alphas_list",
     _PRA + "alphas = [0.2, 1.0, 5.0, 25.0]\natcoords_l = [[0.0, 0.0, 0.0]]\natnums_l = [1]\n",
-    "solve_poisson_robust(ag, fv, tf, atnums_l, atcoords_l, True, alphas, remove_large_pts=10.0)",
+    f"solve_poisson_robust(ag, fv, tf, atnums_l, atcoords_l, True, alphas, {_FAST})",
     ["ag", "fv", "tf", "atnums_l", "atcoords_l", "alphas", "tp"],
     _PP,
     _VPP,
@@ -2457,11 +2525,120 @@ _T(
 )
 _T(
     "robust_poisson.solve_poisson_robust",
-    "int_density",
-    _PRA + "dens = np.arange(ag.size) % 3\n",
-    "solve_poisson_robust(ag, dens, tf, atnums, atcoords, remove_large_pts=10.0)",
-    ["ag", "dens", "tf", "atnums", "atcoords", "tp"],
+    "int_density_ode_params",
+    _PRA + "dens = np.arange(ag.size) % 3\node_params = {'max_nodes': 3000, 'tol': 1e-3}\n",
+    f"solve_poisson_robust(ag, dens, tf, atnums, atcoords, {_FAST}, ode_params=ode_params)",
+    ["ag", "dens", "tf", "atnums", "atcoords", "ode_params", "tp"],
     _PP,
     _VPP,
     follow=[(_ROB, "result(tp)")],
 )
+_T("robust_poisson.solve_poisson_robust", "bad_alphas", _PRA + "alphas = np.array([1.0, -2.0])\n", "solve_poisson_robust(ag, fv, tf, atnums, atcoords, True, alphas)", ["ag", "fv", "tf", "atnums", "atcoords", "alphas"], _PP, _VPP)
+
+
+# --------------------------------------------------------------------------------------------------
+# self-check of the static names and command line entry point
+# --------------------------------------------------------------------------------------------------
+def check_func_names(cases):
+    """Every ``func`` must resolve to an attribute DEFINED by the named class / module."""
+    import importlib
+
+    bad = []
+    for c in cases:
+        parts = c.func.split(".")
+        try:
+            mod = importlib.import_module("grid." + parts[0])
+            if len(parts) == 2:
+                ok = parts[1] in vars(mod)
+            else:
+                cls = getattr(mod, parts[1])
+                ok = parts[2] in vars(cls)
+        except Exception:
+            ok = False
+        if not ok:
+            bad.append((c.cid, c.func))
+    return bad
+
+
+def format_observation(o):
+    txt = f"OBS mode={o['mode']:<9} kind={o['kind']:<24} cid={o['cid']} what={o['what']} site={o['site']}"
+    if o.get("variant"):
+        txt += f" variant={o['variant']}"
+    txt += f" | {o['detail']}"
+    if o.get("before") is not None:
+        txt += f" | before={o['before']} after={o['after']}"
+    return txt
+
+
+def main(argv=None):
+    import argparse
+    import collections
+
+    ap = argparse.ArgumentParser(description=__doc__.splitlines()[0])
+    ap.add_argument("--thorough", action="store_true")
+    ap.add_argument("--seed", type=int, default=0)
+    ap.add_argument("--only", default=None, help="substring filter on the case id")
+    ap.add_argument("--list", action="store_true", help="only list the cases")
+    ap.add_argument("--repro", default=None, help="print the repro snippet of the case with this id")
+    ap.add_argument("--width", type=int, default=400, help="truncate observation lines")
+    args = ap.parse_args(argv)
+
+    cases = make_cases(random.Random(args.seed), quick=not args.thorough)
+    bad = check_func_names(cases)
+    for cid, func in bad:
+        print(f"BAD-FUNC-NAME {cid}: {func}")
+    if args.only:
+        cases = [c for c in cases if args.only in c.cid]
+    if args.repro:
+        for c in cases:
+            if c.cid == args.repro:
+                print(c.repro)
+        return 0
+    print(f"grid package: {_GRID_DIR}")
+    print(f"{len(cases)} cases, {len(set(c.func for c in cases))} distinct entry points, tier={'thorough' if args.thorough else 'quick'}, seed={args.seed}")
+    if args.list:
+        for c in cases:
+            print(f"{c.cid}\t{c.func}\talso={c.also}\talias={c.alias_pairs}\tcallbacks={c.callback_names}")
+        return 0
+
+    t_all = time.time()
+    counts = collections.Counter()
+    kinds = collections.Counter()
+    sites = collections.Counter()
+    timing = []
+    all_obs = []
+    for c in cases:
+        t0 = time.time()
+        status = []
+        for mode in MODES:
+            r = run_case(c, mode)
+            state = "skipped" if r["skipped"] else ("ok" if r["ok"] else "obs")
+            counts[(mode, state)] += 1
+            status.append(f"{mode}={state}")
+            if r["exception"] and r["exception"].startswith("HARNESS"):
+                print(f"HARNESS-ERROR {c.cid} mode={mode}: {r['exception']}")
+            for o in r["observations"]:
+                all_obs.append(o)
+                kinds[o["kind"]] += 1
+                sites[(o["kind"], o["site"])] += 1
+                print(format_observation(o)[: args.width])
+        dt = time.time() - t0
+        plain_exc = c._plain.exc_text if c._plain is not None else None
+        timing.append((dt, c.cid))
+        print(f"CASE {c.cid:<70} {dt:6.2f}s  {' '.join(status)}" + (f"  plain-raises: {plain_exc[:90]}" if plain_exc else ""))
+    total = time.time() - t_all
+    print()
+    print("per-mode counts:")
+    for mode in MODES:
+        print(f"  {mode:<10} ok={counts[(mode, 'ok')]:<4} obs={counts[(mode, 'obs')]:<4} skipped={counts[(mode, 'skipped')]}")
+    print("observations by kind:", dict(kinds))
+    print("observations by (kind, site):")
+    for (k, s), n in sorted(sites.items(), key=lambda kv: (kv[0][0], str(kv[0][1]))):
+        print(f"  {k:<26} {s}  x{n}")
+    print("slowest cases:", ", ".join(f"{cid} {dt:.1f}s" for dt, cid in sorted(timing, reverse=True)[:5]))
+    print(f"TOTAL {len(cases)} cases x {len(MODES)} modes in {total:.1f}s; {len(all_obs)} observations")
+    return 0
+
+
+if __name__ == "__main__":
+    sys.exit(main())
